@@ -1806,10 +1806,14 @@ def wrap_request(prob, out):
 
 
 def canon_machine(mj):
-    mj = dict(mj)
-    for k in ("exceptions", "dead_chips", "dead_links"):
-        mj[k] = sorted(map(list, mj[k]))
-    return mj
+    """what a Machine MEANS (a harmless re-choice of the defaults / exceptions is not a difference): extent, the
+    resources of every working chip, the dead links"""
+    dead = set((x, y) for x, y in mj["dead_chips"])
+    exc = {(e[0], e[1]): list(e[2:5]) for e in mj["exceptions"]}
+    dflt = [mj["cores"], mj["sdram"], mj["sram"]]
+    chips = [[x, y] + exc.get((x, y), dflt) for x in range(mj["width"]) for y in range(mj["height"]) if (x, y) not in dead]
+    return {"width": mj["width"], "height": mj["height"], "chips": chips,
+            "dead_links": sorted(map(list, mj["dead_links"])), "ok_shape": mj.get("ok_shape", True)}
 
 
 def alloc_idle_request(prob, out):
@@ -1865,7 +1869,7 @@ def eval_wrap_problems(ctx, probs):
                     diffs.append(("constraints-at-" + stage, want_cs, seen[stage]["constraints"]))
                 if not deprecated:
                     gm = seen[stage]["machine"]
-                    wm = dict(canon_machine(r["machine"]), ok_shape=True)
+                    wm = canon_machine(r["machine"])
                     if canon_machine(gm) != wm:
                         diffs.append(("machine-at-" + stage, wm, gm))
                 if stage == "route" and seen[stage].get("core_resource", 0) != 0:
